@@ -227,6 +227,11 @@ def check(ctx, w, interesting, rule="R13.9"):
             continue
         if not (fn.thir and thir.root(fn) is not None):
             continue
+        from . import normal as _normal
+        if _normal.known() is not None and fn.def_ not in _normal.known() and not (fn.vis or "").lower().startswith("pub"):
+            # a private helper introduced after the reference list was taken (`with_mode(path, recursive)`): it is spliced into the
+            # constructors that call it, which are decided below with its body in place
+            continue
         v = thir.expr_value(thir.root(fn))
         if fn.impl_trait and fn.impl_trait.endswith(("Default", "Clone")):
             continue
